@@ -1,3 +1,4 @@
 -- Root of the `SPModel` library: model layers (no imports outside core Lean).
 import SPModel.Basic
 import SPModel.Card
+import SPModel.Logic
